@@ -799,3 +799,54 @@ Lemma reset_guard_witness_guarded :
      /\ st s = StH /\ rg_bad [7] [9; 7; 9; 8; 6] s = false) /\
   rg_run false false reset_guard_witness (init [[7]] [[9]; [7]; [9]; [8]; [6]]) = None.
 Proof. split; [eexists; split; [vm_compute; reflexivity|split; reflexivity]|vm_compute; reflexivity]. Qed.
+
+(* ---- where "handshaking" is published ---- *)
+(* published by the output reader (late = false) the wrapper is the model itself *)
+Lemma rp_step_early ug tm l s : rp_step false ug tm (RpL l) (false, s) = rp_keep false (rg_step ug tm l s).
+Proof. destruct l; reflexivity. Qed.
+
+Lemma rp_run_early tm ls : forall s,
+  rp_run false false tm (map RpL ls) (false, s) = rp_keep false (run true tm ls s).
+Proof.
+  induction ls as [|l ls IH]; intro s; cbn [rp_run map run]; [reflexivity|].
+  rewrite rp_step_early, rg_step_guarded. destruct (step_fn true tm l s); cbn [rp_keep]; [apply IH|reflexivity].
+Qed.
+
+(* the current source stores "handshaking" in wrapOutput, in front of `go r.handshake()` *)
+Lemma publish_ok : rp_current = false /\ Consts.relay_handshaking_stored_by_worker = false.
+Proof. split; reflexivity. Qed.
+
+(* one transfer: trigger [9] and the server's CFG [2;10]; the client answers the trigger with
+   its ACT [1;3;10] at once.  Published by the worker, the input reader runs between the output
+   reader's forward of the trigger and the worker's first step: it still sees standby and
+   passes the ACT line to the server raw; then the worker publishes "handshaking" and waits for
+   an ACT line that will not come; the server's CFG is parked; no thread can move. *)
+Definition publish_witness : list rp_label :=
+  [ RpL LOutRead; RpL LOutLoad; RpL (LOutDetect [9] true); RpL LOutStoreH; RpL LOutGo; RpL LOutSend;
+    RpL LInRead; RpL LInLoad; RpL LInSend; RpL (LInEnd false);
+    RpPublish;
+    RpL LOutRead; RpL LOutLoad; RpL LOutLock; RpL LOutReload; RpL LOutAdd; RpL LOutUnlockP ].
+
+Theorem publish_before_forward_needed :
+  exists cs ss sched ps, rp_run true false false sched (false, init cs ss) = Some ps
+    /\ slog (snd ps) = [1; 3; 10] /\ clog (snd ps) = [9] /\ flat (obr (snd ps)) (obq (snd ps)) = [2; 10]
+    /\ cin (snd ps) = [] /\ sin (snd ps) = [] /\ st (snd ps) = StH /\ rp_holds (snd ps) = true
+    /\ forall m th, rp_move true false false th (m, ps) = None.
+Proof.
+  exists [[1; 3; 10]], [[9]; [2; 10]], publish_witness.
+  eexists. split; [vm_compute; reflexivity|]. repeat split.
+  intros m th. destruct th; vm_compute; reflexivity.
+Qed.
+
+(* the same order of the threads with the store in the output reader: the ACT is parked, eaten
+   and rewritten, the CFG likewise, nothing is left in the relay *)
+Lemma publish_witness_early :
+  exists s, run true false
+    [ LOutRead; LOutLoad; LOutDetect [9] true; LOutStoreH; LOutGo; LOutSend;
+      LInRead; LInLoad; LInLock; LInReload; LInAdd; LInUnlockP;
+      LHsAct 3 RdOk; LHsSendAct [101] true;
+      LOutRead; LOutLoad; LOutLock; LOutReload; LOutAdd; LOutUnlockP;
+      LHsCfg 2 RdOk; LHsSendCfg [102]; LHsLock; LHsPopI; LHsPopO; LHsDone; LTlUnlock ]
+    (init [[1; 3; 10]] [[9]; [2; 10]]) = Some s
+  /\ slog s = [101] /\ clog s = [9; 102] /\ rp_holds s = false /\ st s = StT.
+Proof. eexists. split; [vm_compute; reflexivity|]. repeat split. Qed.
